@@ -55,24 +55,6 @@ theorem empty_frame_is_noop (cd : Codec) (a : Adapter) (hq : Quiescent a) :
   | true => exact loop_reading_wrapped cd false a hr (hq.2 hr)
   | false => rw [loop_meta_lt cd false a hr (hq.1 hr)]; simp
 
-theorem runFrames_cons (cd : Codec) (a : Adapter) (f : Bytes) (rest : List Bytes) (es : Bool) (h : rest ≠ []) :
-    runFrames cd a (f :: rest) es = (data cd a f false).andThen (fun a' => runFrames cd a' rest es) := by
-  cases rest with
-  | nil => exact absurd rfl h
-  | cons g gs => rfl
-
-theorem andThen_ret (r : Res) : r.andThen (fun a' => ⟨[], some a'⟩) = r := by
-  cases r with
-  | mk calls next => cases next <;> simp [Res.andThen]
-
-theorem andThen_congr (r : Res) (f g : Adapter → Res) (h : ∀ a', r.next = some a' → f a' = g a') :
-    r.andThen f = r.andThen g := by
-  cases r with
-  | mk calls next =>
-    cases next with
-    | none => simp [Res.andThen]
-    | some a' => simp [Res.andThen, h a' rfl]
-
 /-- **Empty frames are invisible in any frame sequence**: a DATA frame list, with END_STREAM on
 its last frame or not, has the same effect as the list with its zero-length frames removed — from
 every quiescent state, for every codec, without any size bound. The one exception is the one the
